@@ -119,4 +119,15 @@ FINDINGS = [
               '(b before a) is rejected (ber.py:755-760 decodes root members and additions in two passes)',
          witness=dict(kind='decode_expect', spec=HDR + 'A ::= SET { a [0] INTEGER, ..., b [1] BOOLEAN OPTIONAL }' + END, codec='ber', type='A',
                       data_hex='31068101ff800105', expected={'a': 5, 'b': True})),
+    dict(key='constraints-check-ignores-size-on-referenced-element', props=['C11'],
+         text='check_constraints ignores a SIZE constraint written on a type reference that is not a SEQUENCE/SET/CHOICE member: B ::= OCTET STRING  '
+              'A ::= SEQUENCE OF B (SIZE (1..2)), value [3 octets] is encoded without ConstraintsError (compiler.py:900-903 applies set_size_range '
+              'to members only)',
+         witness=dict(kind='encode_must_reject', spec=HDR + 'B ::= OCTET STRING A ::= SEQUENCE OF B (SIZE (1..2))' + END, codec='ber', type='A',
+                      value=[B('000000')])),
+    dict(key='error-path-drops-repeated-member-name', props=['C12'],
+         text="the error path loses a level when a member and its parent member have the same name and are the same compiled object "
+              "(recursive or shared types): A ::= SEQUENCE { n A OPTIONAL, d OCTET STRING (SIZE (3)) } value {n: {n: {d: 2 octets}, d: ..}, d: ..} "
+              "reports 'A.n.d' instead of 'A.n.n.d' (ErrorWithLocation.add_location skips an element equal to the last one, codecs/__init__.py:63-72)",
+         witness=dict(kind='custom', name='error_path_repeated_name')),
 ]
